@@ -297,6 +297,27 @@ theorem unsigned_reply_rejected (signedBy : Bytes → Bytes → Prop)
 
 end
 
+/-- **C06, credential selection.**  Stored HAP credentials are what AirPlay verifies with, whatever
+    the peer advertises; HAP credentials are never selected unless they are the stored ones. -/
+theorem stored_hap_credentials_always_selected (cr : Creds) (adv : Bool) :
+    extractCredentials (.hap cr) adv = .hap cr := rfl
+
+theorem selected_hap_only_if_stored (s : Stored) (adv : Bool) (cr : Creds)
+    (h : extractCredentials s adv = .hap cr) : s = .hap cr := by
+  cases s <;> simp [extractCredentials] at h
+  · split at h <;> cases h
+  · rw [h]
+
+/-- … so with HAP credentials stored, keys on the AirPlay connection still imply that the reply
+    proved the paired identity, for every advertised feature set. -/
+theorem stored_hap_keys_only_if_accepted (C : Crypto) (cr : Creds) (adv : Bool) (cl : Client) (r : Reply)
+    (k : Bytes × Bytes)
+    (h : (match extractCredentials (.hap cr) adv with
+          | .hap c => (connect C .airplay c cl r).keys
+          | _ => none) = some k) :
+    Accepted C .airplay cr cl r ∧ AckOk .airplay r :=
+  keys_only_if_accepted C .airplay cr cl r k h
+
 /-- the recursion fuel of `readTlv` is never exhausted -/
 theorem readTlv_fuel_irrelevant (b : Bytes) (acc : Tlv) (f : Nat) (h : b.length ≤ f) :
     readTlvAux f b acc = readTlvAux b.length b acc :=
